@@ -90,6 +90,14 @@ def text(rnd, n, alphabet='ABCDEFGHIJKLMNOPQRSTUVWXYZ0123456789_-.'):
     return ''.join(rnd.choice(alphabet) for _ in range(n))
 
 
+def utext(rnd, n):
+    """text for the fields the standard defines as UTF-8 (User Identity): mostly ASCII, sometimes 2-, 3- and 4-byte
+    characters, so that character count and byte count differ"""
+    if n == 0 or rnd.random() < 0.5:
+        return text(rnd, n)
+    return ''.join(rnd.choice('abcXYZ09 _\u00e9\u00df\u0416\u65e5\u20ac\U0001f600') for _ in range(n))
+
+
 def uid(rnd, n=None):
     if n is None:
         n = rnd.choice([0, 1, 2, 17, 63, 64, rnd.randrange(1, 65)])
@@ -120,10 +128,10 @@ def make_sub(kind, rnd, strict=False):
     if kind == 'extNeg':
         return ud.SOPClassExtendedNegotiationSubItem(uid(rnd), bytes(rnd.randrange(256) for _ in range(rnd.choice([0, 1, 2, 3, 8, 40]))), r)
     if kind == 'userId':
-        return ud.UserIdentityNegotiationSubItem(text(rnd, rnd.choice([0, 1, 9, 64])), text(rnd, rnd.choice([0, 1, 8])),
+        return ud.UserIdentityNegotiationSubItem(utext(rnd, rnd.choice([0, 1, 9, 64])), utext(rnd, rnd.choice([0, 1, 8])),
                                                  rnd.choice([1, 2, 3, 4, 5, 255]), rnd.choice([0, 1]), r)
     if kind == 'userIdAc':
-        return ud.UserIdentityNegotiationSubItemAc(text(rnd, rnd.choice([0, 1, 30])), r)
+        return ud.UserIdentityNegotiationSubItemAc(utext(rnd, rnd.choice([0, 1, 30])), r)
     if kind == 'generic':
         ty = rnd.choice([t for t in (0x57, 0x5A, 0x60, 0x7F, 0xFF, 0x01, 0x10, 0x40, 0x50) ])
         return ud.GenericUserDataSubItem(ty, bytes(rnd.randrange(256) for _ in range(rnd.choice([0, 1, 2, 5, 300]))), r)
